@@ -17,6 +17,25 @@ from .rules import event_facts, node_assigns, is_none
 from .x_guardflow import ClassEffects, guard_facts, edge_facts
 
 IO = "tornado/iostream.py"
+# private functions of today's iostream.py that the rules anchor on (or that are long-standing helpers):
+# they are never inlined; private helpers a refactoring introduces are (x_inline)
+KEEP_IOSTREAM = {
+    "_add_io_state", "_check_closed", "_check_max_bytes", "_consume", "_do_ssl_handshake", "_find_read_pos", "_finish_read",
+    "_finish_ssl_connect", "_handle_connect", "_handle_events", "_handle_read", "_handle_write", "_is_connreset",
+    "_maybe_add_error_listener", "_read_from_buffer", "_read_to_buffer", "_read_to_buffer_loop", "_signal_closed", "_start_read",
+    "_try_inline_read",
+}
+
+
+def normalised(ck):
+    """Replace ck.repo by a copy in which the private helpers a refactoring may have
+    split off the anchored iostream functions are inlined again."""
+    from .x_inline import inline_repo
+
+    ck.repo = inline_repo(ck.repo, [IO], KEEP_IOSTREAM)
+    return ck.repo
+
+
 FAMILY = [(IO, "BaseIOStream"), (IO, "IOStream"), (IO, "SSLIOStream"), (IO, "PipeIOStream")]
 
 
